@@ -8,63 +8,102 @@ Definition n_pat : ident := [112;97;116].
 Definition n_s : ident := [115].
 Definition n_v : ident := [118].
 
+(* The scripts below are the witnesses of the stale-fold findings (F-C03-shared-list-append, -stale-reassign-in-branch,
+   -stale-in-loop, -remove-unknown-pops-first, -stale-glyph-row, -stale-after-try).  Since the repair (child scopes copy
+   the tracked lists, names written in a block are forgotten after / before it, an append / remove with a run-time
+   argument makes the list a run-time value) the transpiler either leaves the fold site to run time or - where the site
+   needs a constant: flash_pattern(name), glyph rows - rejects the script.  Each lemma states what the repaired model does
+   on EVERY path of the witness. *)
+
 (* pat = [1, 0] / if c: pat.append(1) / mon.write(len(pat)) / led.flash_pattern(pat) *)
 Definition w_shared : list stmt :=
   [ SAssign n_pat (EList [EInt 1; EInt 0]);
     SIf [SAppend n_pat (EInt 1)] [];
     SObs (OLen n_pat); SObs (OFlash n_pat) ].
+(* the same without the flash_pattern call, and with the flash_pattern call in front of the branch *)
+Definition w_shared_len : list stmt :=
+  [ SAssign n_pat (EList [EInt 1; EInt 0]);
+    SObs (OFlash n_pat);
+    SIf [SAppend n_pat (EInt 1); SObs (OLen n_pat); SObs (OFlash n_pat)] [SObs (OLen n_pat)];
+    SObs (OLen n_pat) ].
 
-Lemma shared_list_refuted :
-  firmware_outputs w_shared [0%nat] = Some [VInt 3; VList [VInt 1; VInt 0; VInt 1]] /\
-  python_outputs w_shared [0%nat] = Some [VInt 2; VList [VInt 1; VInt 0]] /\
-  firmware_outputs w_shared [1%nat] = python_outputs w_shared [1%nat].
-Proof. vm_compute. auto. Qed.
+Lemma shared_list_repaired :
+  firmware_outputs w_shared [0%nat] = None /\ firmware_outputs w_shared [1%nat] = None /\ tblock [] w_shared [] [] = None /\
+  is_fresh w_shared_len = true /\
+  firmware_outputs w_shared_len [0%nat] = Some [VList [VInt 1; VInt 0]; VInt 2; VInt 2] /\
+  python_outputs w_shared_len [0%nat] = Some [VList [VInt 1; VInt 0]; VInt 2; VInt 2] /\
+  firmware_outputs w_shared_len [1%nat] = Some [VList [VInt 1; VInt 0]; VInt 3; VList [VInt 1; VInt 0; VInt 1]; VInt 3] /\
+  python_outputs w_shared_len [1%nat] = Some [VList [VInt 1; VInt 0]; VInt 3; VList [VInt 1; VInt 0; VInt 1]; VInt 3].
+Proof. vm_compute. repeat split; reflexivity. Qed.
 
-(* s = "abc" / if c: s = "abcdef" / mon.write(len(s)) *)
+(* s = "abc" / if c: s = "abcdef" / mon.write(len(s))        (also the try / except witness: try = a branch that runs) *)
 Definition w_stale : list stmt :=
   [ SAssign n_s (EStr [97;98;99]);
     SIf [SAssign n_s (EStr [97;98;99;100;101;102])] [];
     SObs (OLen n_s) ].
-Lemma stale_len_refuted :
-  firmware_outputs w_stale [1%nat] = Some [VInt 3] /\ python_outputs w_stale [1%nat] = Some [VInt 6] /\
-  firmware_outputs w_stale [0%nat] = python_outputs w_stale [0%nat].
-Proof. vm_compute. auto. Qed.
+Lemma stale_len_repaired :
+  is_fresh w_stale = true /\
+  firmware_outputs w_stale [1%nat] = Some [VInt 6] /\ python_outputs w_stale [1%nat] = Some [VInt 6] /\
+  firmware_outputs w_stale [0%nat] = Some [VInt 3] /\ python_outputs w_stale [0%nat] = Some [VInt 3] /\
+  (* the length is left to run time: the residual still holds the observation *)
+  option_map (fun r => match r with (_, _, res, _) => res end) (tblock [] w_stale [] []) =
+    Some [SAssign n_s (EStr [97;98;99]); SIf [SAssign n_s (EStr [97;98;99;100;101;102])] []; SObs (OLen n_s)].
+Proof. vm_compute. repeat split; reflexivity. Qed.
 
 (* s = "ab" / while c: mon.write(len(s)); s = "abcd" / mon.write(len(s)) *)
 Definition w_loop : list stmt :=
   [ SAssign n_s (EStr [97;98]);
     SWhile [SObs (OLen n_s); SAssign n_s (EStr [97;98;99;100])];
     SObs (OLen n_s) ].
-Lemma stale_loop_refuted :
-  firmware_outputs w_loop [2%nat] = Some [VInt 2; VInt 2; VInt 2] /\
-  python_outputs w_loop [2%nat] = Some [VInt 2; VInt 4; VInt 4].
-Proof. vm_compute. auto. Qed.
+Lemma stale_loop_repaired :
+  is_fresh w_loop = true /\
+  firmware_outputs w_loop [2%nat] = Some [VInt 2; VInt 4; VInt 4] /\ python_outputs w_loop [2%nat] = Some [VInt 2; VInt 4; VInt 4] /\
+  firmware_outputs w_loop [0%nat] = Some [VInt 2] /\ python_outputs w_loop [0%nat] = Some [VInt 2].
+Proof. vm_compute. repeat split; reflexivity. Qed.
 
-(* pat = [1, 0] / v = <a run-time value, here 0> / pat.remove(v) / led.flash_pattern(pat) *)
+(* pat = [1, 0] / v = <a run-time value, here 0> / pat.remove(v) / led.flash_pattern(pat): rejected;
+   with mon.write(len(pat)) instead: the length is read at run time *)
 Definition w_remove : list stmt :=
   [ SAssign n_pat (EList [EInt 1; EInt 0]);
     SAssign n_v (ESubscript (EList [EInt 0]) (EInt 0));
     SRemove n_pat (EName n_v);
     SObs (OFlash n_pat) ].
-Lemma remove_unknown_refuted :
-  firmware_outputs w_remove [] = Some [VList [VInt 0]] /\ python_outputs w_remove [] = Some [VList [VInt 1]].
-Proof. vm_compute. auto. Qed.
+Definition w_remove_len : list stmt :=
+  [ SAssign n_pat (EList [EInt 1; EInt 0]);
+    SAssign n_v (ESubscript (EList [EInt 0]) (EInt 0));
+    SRemove n_pat (EName n_v);
+    SObs (OLen n_pat); SObs (OVal n_pat) ].
+Lemma remove_unknown_repaired :
+  firmware_outputs w_remove [] = None /\ python_outputs w_remove [] = Some [VList [VInt 1]] /\
+  is_fresh w_remove_len = true /\
+  firmware_outputs w_remove_len [] = Some [VInt 1; VList [VInt 1]] /\ python_outputs w_remove_len [] = Some [VInt 1; VList [VInt 1]].
+Proof. vm_compute. repeat split; reflexivity. Qed.
 
-(* a = 1 / if c: a = 2 / lcd.glyph(0, [a, 0, 0, 0, 0, 0, 0, 0]) *)
+(* a = 1 / if c: a = 2 / lcd.glyph(0, [a, 0, 0, 0, 0, 0, 0, 0]): rejected (the row is a run-time value);
+   with the glyph call inside the branch, after the assignment, and in the else branch: the rows of each path *)
 Definition n_aa : ident := [97].
+Definition glyph_of (x : ident) : stmt := SObs (OGlyph (EList [EName x; EInt 0; EInt 0; EInt 0; EInt 0; EInt 0; EInt 0; EInt 0])).
 Definition w_glyph : list stmt :=
   [ SAssign n_aa (EInt 1);
     SIf [SAssign n_aa (EInt 2)] [];
-    SObs (OGlyph (EList [EName n_aa; EInt 0; EInt 0; EInt 0; EInt 0; EInt 0; EInt 0; EInt 0])) ].
-Lemma stale_glyph_refuted :
-  firmware_outputs w_glyph [1%nat] = Some [VTuple [VInt 1; VInt 0; VInt 0; VInt 0; VInt 0; VInt 0; VInt 0; VInt 0]] /\
-  python_outputs w_glyph [1%nat] = Some [VTuple [VInt 2; VInt 0; VInt 0; VInt 0; VInt 0; VInt 0; VInt 0; VInt 0]] /\
-  firmware_outputs w_glyph [0%nat] = python_outputs w_glyph [0%nat] /\ is_fresh w_glyph = false.
-Proof. vm_compute. auto. Qed.
+    glyph_of n_aa ].
+Definition w_glyph_in : list stmt :=
+  [ SAssign n_aa (EInt 1);
+    SIf [SAssign n_aa (EInt 2); glyph_of n_aa] [glyph_of n_aa] ].
+Lemma stale_glyph_repaired :
+  firmware_outputs w_glyph [1%nat] = None /\ firmware_outputs w_glyph [0%nat] = None /\
+  is_fresh w_glyph_in = true /\
+  firmware_outputs w_glyph_in [1%nat] = Some [VTuple [VInt 2; VInt 0; VInt 0; VInt 0; VInt 0; VInt 0; VInt 0; VInt 0]] /\
+  python_outputs w_glyph_in [1%nat] = Some [VTuple [VInt 2; VInt 0; VInt 0; VInt 0; VInt 0; VInt 0; VInt 0; VInt 0]] /\
+  firmware_outputs w_glyph_in [0%nat] = Some [VTuple [VInt 1; VInt 0; VInt 0; VInt 0; VInt 0; VInt 0; VInt 0; VInt 0]] /\
+  python_outputs w_glyph_in [0%nat] = Some [VTuple [VInt 1; VInt 0; VInt 0; VInt 0; VInt 0; VInt 0; VInt 0; VInt 0]].
+Proof. vm_compute. repeat split; reflexivity. Qed.
 
-Lemma witnesses_outside_guard :
-  is_fresh w_shared = false /\ is_fresh w_stale = false /\ is_fresh w_loop = false /\ is_fresh w_remove = false.
-Proof. vm_compute. auto. Qed.
+(* the witnesses that are still accepted are inside the guard of the simulation theorem now *)
+Lemma witnesses_inside_guard :
+  is_fresh w_shared_len = true /\ is_fresh w_stale = true /\ is_fresh w_loop = true /\ is_fresh w_remove_len = true /\
+  is_fresh w_glyph_in = true.
+Proof. vm_compute. repeat split; reflexivity. Qed.
 
 (* what a _resolve_*_arg call site bakes in is the run-time value of the argument in EVERY run-time environment:
    the folded expression is name-free, hence closed *)
